@@ -75,8 +75,10 @@ def run(ctx):
     _r8_inflight(ctx)
     # clauses shared with other properties: TTLs only age (the cache's lifetime and hit rules), what a truncated relay may drop
     ctx.include("C06", rules=("R1", "R2", "R3", "R6"))
+    # "the reply belongs to this question": a cached entry answers only the question it was stored for (the key and how it is compared)
+    ctx.include("C06", rules=("R4",))
     ctx.include("C04", rules=("R3",))
-    ctx.include("C14", rules=("R10", "R3", "R4"))
+    ctx.include("C14", rules=("R10", "R3", "R4", "R8"))
     # ---------------- R1: reply assembled from (query, upstream reply)
     cands = fn_with_sig(P, ["DnsMessage", "DNSPkt"], "DNSPkt")
     n_r1 = 0
